@@ -195,7 +195,16 @@ class DULServiceProvider(threading.Thread):
                     evt = self.event.popleft()
                 except IndexError:
                     continue
-                self.state_machine.action(evt)
+                try:
+                    self.state_machine.action(evt)
+                except socket.error:
+                    # transport connection failed while a PDU was being sent (reset by peer): that is a
+                    # transport connection closed indication (Evt17), not a reason to abandon the socket
+                    if not self.dul_socket or self.state_machine.current_state == fsm.States.STA_1:
+                        raise
+                    self.dul_socket.close()
+                    self.dul_socket = None
+                    self.event.append(fsm.Events.EVT_17)
         except Exception:
             self.to_service_user.put(pdu.AAbortPDU(source=0, reason_diag=0))
             raise
